@@ -46,6 +46,11 @@ def _always_exits(stmts) -> bool:
         return _always_exits(last.body) and _always_exits(last.orelse)
     if isinstance(last, ast.With):
         return _always_exits(last.body)
+    if isinstance(last, ast.Try):
+        if _always_exits(last.finalbody):
+            return True
+        main = _always_exits(last.orelse) if last.orelse else _always_exits(last.body)
+        return main and all(_always_exits(h.body) for h in last.handlers)
     return False
 
 
@@ -1424,6 +1429,8 @@ class Normalizer:
         # ---- simple statements
         if self.lower_ifexp:
             low = self._lower_ifexp_stmt(st)
+            if isinstance(low, list):
+                return self._block(low, cls, depth)
             if low is not None:
                 return self._stmt(low, cls, depth)
         if self.lower_comps or self._comp_calls_helper(st, cls):
@@ -2013,12 +2020,52 @@ class Normalizer:
                             return r
         return None
 
+    @staticmethod
+    def _plain_choice(ie) -> bool:
+        """test and arms read names, attributes and constants only (so making the choice earlier changes nothing)"""
+        ok = (ast.Name, ast.Attribute, ast.Constant, ast.Compare, ast.Is, ast.IsNot, ast.Eq, ast.NotEq, ast.Load, ast.UnaryOp, ast.Not)
+        return all(isinstance(n, ok) for part in (ie.test, ie.body, ie.orelse) for n in ast.walk(part))
+
+    @staticmethod
+    def _is_private_helper_argument(e, ie) -> bool:
+        """ie is directly an argument of a call of a private helper (`_x(...)` / `self._x(...)`), itself evaluated unconditionally
+        and not after another call's effects in e"""
+        for n in ast.walk(e):
+            if isinstance(n, ast.Call) and (any(a is ie for a in n.args) or any(k.value is ie for k in n.keywords)):
+                f = n.func
+                name = f.id if isinstance(f, ast.Name) else f.attr if isinstance(f, ast.Attribute) and isinstance(f.value, ast.Name) and f.value.id == "self" else None
+                return name is not None and name.startswith("_") and not name.startswith("__")
+        return False
+
     def _lower_ifexp_stmt(self, st) -> Optional[ast.stmt]:
         def mk(test, a, b):
             return ast.copy_location(ast.If(test=test, body=[a], orelse=[b]), st)
         # a conditional expression nested in a simple statement: the statement once per arm
         if isinstance(st, (ast.Return, ast.Assign, ast.Expr, ast.AugAssign)) and st.value is not None and not isinstance(st.value, ast.IfExp):
             ie = self._first_nested_ifexp(st.value)
+            if ie is not None and self._is_private_helper_argument(st.value, ie) and self._plain_choice(ie):
+                # a plain choice handed to a private helper: the choice is made once, then the helper is called (one inlined
+                # copy with the argument an alternative of both, as if the caller had rebound a local before the call)
+                self._hoist_n = getattr(self, "_hoist_n", 0) + 1
+                tmp = f"choice__{self._hoist_n}"
+                c = copy.deepcopy(st)
+                orig = [n for n in ast.walk(st) if isinstance(n, ast.IfExp)]
+                dup = [n for n in ast.walk(c) if isinstance(n, ast.IfExp)]
+                tgt = dup[orig.index(ie)]
+
+                class _Rep2(ast.NodeTransformer):
+                    def visit_IfExp(self_, node):
+                        if node is tgt:
+                            return ast.copy_location(ast.Name(id=tmp, ctx=ast.Load()), node)
+                        self_.generic_visit(node)
+                        return node
+                c = _Rep2().visit(c)
+                first = mk(copy.deepcopy(ie.test),
+                           ast.copy_location(ast.Assign(targets=[ast.Name(id=tmp, ctx=ast.Store())], value=copy.deepcopy(ie.body), lineno=st.lineno), st),
+                           ast.copy_location(ast.Assign(targets=[ast.Name(id=tmp, ctx=ast.Store())], value=copy.deepcopy(ie.orelse), lineno=st.lineno), st))
+                ast.fix_missing_locations(first)
+                ast.fix_missing_locations(c)
+                return [first, c]
             if ie is not None and sum(1 for n in ast.walk(st) if isinstance(n, ast.IfExp)) <= 3:
                 def variant(arm):
                     c = copy.deepcopy(st)
